@@ -233,8 +233,17 @@ impl MurmurHash3X64128 {
         &&& self.buf@.subrange(0, self.buf_len as int) =~= d.subrange(self.total as int, d.len() as int)
     }
 
+    // REFINEMENT of the abstract hasher model of the sketch units (cpc_api, hll_coupons: `fresh`, `seed_of`, `fed`, `digest` are uninterpreted
+    // there): a fresh hasher has absorbed nothing and still shows its seed; a fed hasher is a reachable state; its digest is the
+    // MurmurHash3 of what it was fed (finish128 below proves that this does not depend on the choice)
+    spec fn fresh(&self) -> bool { self.represents(self.h1, Seq::<u8>::empty()) && self.wf() && self.len() == 0 }
+    spec fn seed_of(&self) -> u64 { self.h1 }
+    spec fn fed(&self) -> bool { self.buf_len < 16 && self.len() <= u64::MAX && exists|seed: u64, d: Seq<u8>| #[trigger] self.represents(seed, d) }
+    spec fn digest(&self) -> (u64, u64) { let p = choose|seed: u64, d: Seq<u8>| #[trigger] self.represents(seed, d); murmur3_x64_128(p.0, p.1) }
+
     fn with_seed ( seed : u64 ) -> ( r : Self ) ensures
-/*@C16.m_init*/ r . represents ( seed , Seq :: < u8 > :: empty ( ) ) , r . wf ( ) , r . len ( ) == 0 , {
+/*@C16.m_init*/ r . represents ( seed , Seq :: < u8 > :: empty ( ) ) , r . wf ( ) , r . len ( ) == 0 ,
+/*@C16.m_init*/ r . fresh ( ) , r . seed_of ( ) == seed , {
 proof {
 reveal ( MurmurHash3X64128 :: represents ) ;
 }
@@ -246,7 +255,8 @@ h1 : seed , h2 : seed , total : 0 , buf : [ 0 ;
 
 
     fn finish128 ( & self ) -> ( r : ( u64 , u64 ) ) requires self . buf_len < 16 , self . len ( ) <= u64 :: MAX , ensures
-/*@C16.m_digest*/ forall | seed : u64 , d : Seq < u8 > | # [ trigger ] self . represents ( seed , d ) ==> r == murmur3_x64_128 ( seed , d ) , {
+/*@C16.m_digest*/ forall | seed : u64 , d : Seq < u8 > | # [ trigger ] self . represents ( seed , d ) ==> r == murmur3_x64_128 ( seed , d ) ,
+/*@C16.m_digest*/ self . fed ( ) ==> r == self . digest ( ) , {
 hide ( vstd :: wrapping :: u64_specs :: wrapping_mul ) ;
 hide ( vstd :: wrapping :: u64_specs :: wrapping_add ) ;
 let mut h1 = self . h1 ;
